@@ -93,8 +93,8 @@ static GLOBAL: Counting = Counting;
 
 /// total bytes requested from the allocator during one decoder call must stay
 /// below ALLOC_C * input length + ALLOC_D
-const ALLOC_C: usize = 64;
-const ALLOC_D: usize = 16384;
+const ALLOC_C: usize = 16;
+const ALLOC_D: usize = 2048;
 
 // ---------------------------------------------------------------- formats
 const F_SLIP: u64 = 1;
@@ -227,7 +227,8 @@ struct Ctx {
     coq: Vec<String>,
     distinct: BTreeSet<(u64, Vec<u8>)>,
     calls: u64,
-    max_ratio_num: usize,
+    /// max over all calls of (bytes allocated - ALLOC_C * input length)
+    max_excess: usize,
     panics_seen: BTreeSet<String>,
     hits_per_id: std::collections::BTreeMap<&'static str, u64>,
 }
@@ -262,6 +263,7 @@ impl Ctx {
                 ),
             }
         }
+        self.max_excess = self.max_excess.max(o.alloc.saturating_sub(ALLOC_C * bytes.len()));
         let bound = ALLOC_C * bytes.len() + ALLOC_D;
         if o.alloc > bound {
             self.summary.oracle_failure(
@@ -269,9 +271,6 @@ impl Ctx {
                 &format!("{} decoder allocated {} bytes for an input of {} bytes (bound {})", fmt_name(fmt), o.alloc, bytes.len(), bound),
                 desc,
             );
-        }
-        if bytes.len() >= 64 {
-            self.max_ratio_num = self.max_ratio_num.max(o.alloc.saturating_sub(ALLOC_D / 2) / bytes.len());
         }
         o
     }
@@ -388,9 +387,93 @@ fn fields_of(fmt: u64, b: &[u8]) -> Vec<(usize, usize)> {
         _ => vec![],
     }
 }
-fn corruption_values(len: usize, width: usize) -> Vec<u64> {
+/// start offsets of the sections (fields, slips, hops, payloads, embedded transactions) of a valid encoding
+fn tx_bounds(base: usize, b: &[u8]) -> Vec<usize> {
+    let mut v: Vec<usize> = [0usize, 4, 8, 12, 16, 80, 88, 92, 93].iter().map(|x| base + x).collect();
+    if b.len() < base + 16 {
+        return v;
+    }
+    let (nin, nout, ml, pl) = (be32(b, base).unwrap() as usize, be32(b, base + 4).unwrap() as usize, be32(b, base + 8).unwrap() as usize, be32(b, base + 12).unwrap() as usize);
+    let mut off = base + 93;
+    for _ in 0..(nin + nout).min(600) {
+        v.extend([off, off + 33, off + 41, off + 49, off + 57, off + 58]);
+        off += 59;
+    }
+    v.push(off);
+    off += ml;
+    for _ in 0..pl.min(50) {
+        v.extend([off, off + 33, off + 66]);
+        off += 130;
+    }
+    v.push(off);
+    v
+}
+fn block_bounds(base: usize, b: &[u8]) -> Vec<usize> {
+    let mut v: Vec<usize> = [0usize, 4, 12, 20, 52, 85, 117].iter().map(|x| base + x).collect();
+    v.extend((0..=26).map(|i| base + 181 + 8 * i));
+    let n = be32(b, base).unwrap_or(0) as usize;
+    let mut off = base + 389;
+    for _ in 0..n.min(8) {
+        if off + 16 > b.len() {
+            break;
+        }
+        v.extend(tx_bounds(off, b));
+        off += tx_len_at(b, off);
+    }
+    v
+}
+fn section_bounds(fmt: u64, b: &[u8]) -> Vec<usize> {
+    let mut v = match fmt {
+        F_SLIP => vec![0, 33, 41, 49, 57, 58],
+        F_HOP => vec![0, 33, 66],
+        F_TX => tx_bounds(0, b),
+        F_BLOCK => block_bounds(0, b),
+        F_HS_CHALLENGE => vec![0],
+        F_HS_RESPONSE => {
+            let mut v = vec![0, 1, 2, 4, 5, 6, 8, 41, 105, 137, 138, 142];
+            if let Some(u) = be32(b, 138) {
+                v.push(142 + u as usize);
+            }
+            v
+        }
+        F_BC_REQUEST => vec![0, 8, 40],
+        F_GHOST => {
+            let mut v = vec![0, 32, 36];
+            let c = be32(b, 32).unwrap_or(0) as usize;
+            for m in [32usize, 64, 72, 80, 81, 82] {
+                v.push(36 + c * m);
+            }
+            v
+        }
+        F_API => vec![0, 4],
+        F_VERSION => vec![0, 1, 2],
+        F_GT => vec![0, 32, 64],
+        F_WALLET => vec![0, 32],
+        F_MESSAGE => {
+            let mut v = vec![0, 1];
+            match b.first() {
+                Some(3) => v.extend(block_bounds(1, b)),
+                Some(4) => v.extend(tx_bounds(1, b)),
+                Some(2) => v.extend([9usize, 42, 106, 138, 139, 143]),
+                Some(6) => v.extend([33usize]),
+                Some(11) => v.extend([9usize, 41]),
+                Some(15) => v.extend((0..b.len() / 33).map(|i| 1 + 33 * i)),
+                _ => {}
+            }
+            v
+        }
+        _ => vec![0],
+    };
+    v.push(b.len());
+    v.sort();
+    v.dedup();
+    v
+}
+
+fn corruption_values(len: usize, width: usize, orig: u64) -> Vec<u64> {
     let l = len as u64;
-    let mut v = vec![0, 1, l.saturating_sub(1), l, l + 1, 255, 256, 65535, 1u64 << 31, u32::MAX as u64, 9, 10, 16, 128];
+    let mut v = vec![0, 1, l.saturating_sub(1), l, l + 1, 255, 256, 65535, 1u64 << 31, u32::MAX as u64, 9, 10, 16, 128,
+                     orig.wrapping_sub(1), orig.wrapping_add(1), orig.wrapping_add(2), orig / 2, orig.wrapping_mul(2)];
     let max = if width >= 8 { u64::MAX } else { (1u64 << (8 * width)) - 1 };
     for x in v.iter_mut() {
         *x &= max;
@@ -503,7 +586,7 @@ fn main() {
         coq: vec![],
         distinct: BTreeSet::new(),
         calls: 0,
-        max_ratio_num: 0,
+        max_excess: 0,
         panics_seen: BTreeSet::new(),
         hits_per_id: Default::default(),
     };
@@ -526,13 +609,29 @@ fn main() {
             if off + width > bytes.len() {
                 continue;
             }
-            for val in corruption_values(bytes.len(), width) {
+            let mut be = [0u8; 8];
+            be[8 - width..].copy_from_slice(&bytes[off..off + width]);
+            for val in corruption_values(bytes.len(), width, u64::from_be_bytes(be)) {
                 let mut m = bytes.clone();
                 put(&mut m, off, width, val);
                 if m == *bytes {
                     continue;
                 }
                 ctx.one("field-corruption", *fmt, &m, &format!("{}: field at {} (width {}) := {}", what, off, width, val));
+            }
+        }
+    }
+    // 2b. first and last byte of every section (field, slip, hop, payload, embedded transaction) inverted
+    for (fmt, bytes, what) in all.iter() {
+        let mut done: BTreeSet<usize> = BTreeSet::new();
+        for start in section_bounds(*fmt, bytes) {
+            for pos in [start as i64, start as i64 - 1] {
+                if pos < 0 || pos as usize >= bytes.len() || !done.insert(pos as usize) {
+                    continue;
+                }
+                let mut m = bytes.clone();
+                m[pos as usize] ^= 0xFF;
+                ctx.one("section-edge", *fmt, &m, &format!("{}: byte {} (edge of a section) inverted", what, pos));
             }
         }
     }
@@ -626,13 +725,13 @@ fn main() {
 
     ctx.summary.evaluations = ctx.calls;
     ctx.summary.notes.push(format!(
-        "{} decoder calls in {} cases; allocation bound {}*len+{} never exceeded: max observed (alloc-{})/len = {} for inputs >= 64 bytes",
+        "{} decoder calls in {} cases; allocation bound {}*len+{} never exceeded: max observed (bytes requested during one decoder call) - {}*len = {}",
         ctx.calls,
         ctx.coq.len(),
         ALLOC_C,
         ALLOC_D,
-        ALLOC_D / 2,
-        ctx.max_ratio_num
+        ALLOC_C,
+        ctx.max_excess
     ));
     let seen: Vec<String> = ctx.panics_seen.iter().cloned().collect();
     ctx.summary.notes.push(format!("panic messages seen inside the known classes: {}", seen.join(" || ")));
